@@ -394,7 +394,7 @@ fn explain(pat: &Nfa, spec: &Nfa, st: &Stages, cfg: &Cfg) -> (Option<Vec<&'stati
     let mut merge = false;
     if l2 != '=' {
         let ranged = st.trie.edges.iter().any(|e| e.2.min < e.2.max);
-        if cfg.repetitions && ranged && subset(&cl, &trie) {
+        if cfg.repetitions && ranged && subset(&cl, &trie) && trie_matches_merge_model(st, cfg) {
             merge = true;
         } else {
             return (None, chain);
@@ -431,4 +431,78 @@ fn explain(pat: &Nfa, spec: &Nfa, st: &Stages, cfg: &Cfg) -> (Option<Vec<&'stati
         return (None, chain);
     }
     (Some(ids), chain)
+}
+
+// ---------------------------------------------------------------------------------------------
+// Reference model of the listed finding KF-merge
+// ---------------------------------------------------------------------------------------------
+
+/// The trie that grex's documented-by-observation insertion rule produces: walking a cluster from
+/// the root, an outgoing edge with the same text is reused if its upper count equals the new
+/// grapheme's, and is widened to `min(..)..=max(..)` if its upper count is exactly one less;
+/// edges are examined from the most recently added to the oldest (petgraph's adjacency order).
+/// KF-merge is accepted only if the real trie denotes exactly this model's language, so a
+/// different (even larger) over-match at trie insertion is still reported.
+pub fn model_merge_trie(clusters: &[Vec<Label>]) -> Automaton {
+    struct E {
+        text: String,
+        min: u32,
+        max: u32,
+        to: usize,
+        label: Label,
+    }
+    let mut edges: Vec<Vec<E>> = vec![vec![]];
+    let mut finals: Vec<usize> = vec![];
+    for c in clusters {
+        let mut cur = 0usize;
+        for g in c {
+            let text = g.chars.join("");
+            let mut next = None;
+            for e in edges[cur].iter_mut().rev() {
+                if e.text != text {
+                    continue;
+                }
+                if e.max + 1 == g.max {
+                    e.min = e.min.min(g.min);
+                    e.max = e.max.max(g.max);
+                    next = Some(e.to);
+                    break;
+                } else if e.max == g.max {
+                    next = Some(e.to);
+                    break;
+                }
+            }
+            cur = match next {
+                Some(n) => n,
+                None => {
+                    let n = edges.len();
+                    edges.push(vec![]);
+                    edges[cur].push(E { text, min: g.min, max: g.max, to: n, label: g.clone() });
+                    n
+                }
+            };
+        }
+        if !finals.contains(&cur) {
+            finals.push(cur);
+        }
+    }
+    let mut out = Automaton { state_count: edges.len(), start: 0, finals, edges: vec![] };
+    for (from, es) in edges.iter().enumerate() {
+        for e in es {
+            let mut l = e.label.clone();
+            l.min = e.min;
+            l.max = e.max;
+            l.nested = vec![];
+            out.edges.push((from, e.to, l));
+        }
+    }
+    out
+}
+
+/// Does the real trie denote the language of the KF-merge reference model?
+pub fn trie_matches_merge_model(st: &Stages, cfg: &Cfg) -> bool {
+    let model = model_merge_trie(&st.clusters);
+    let a = automaton_nfa(&model, cfg, false);
+    let b = automaton_nfa(&st.trie, cfg, false);
+    matches!(compare_default(&a, &b), Ok(Diff::Equal))
 }
